@@ -453,6 +453,17 @@ pub fn oracle_c12_ew(cfg: &EwCfg, tr: &EwTrace) -> Vec<Violation> {
 /// Reference model of the 10-resends-2-s-apart retry timers (handshake SYN, SYN-ACK, disconnect).
 struct Retry { next: u64, remaining: u32 }
 
+/// wire[wi] is a disconnect request sent by a client in the same step directly behind a handshake ACK (the closing client's answer to a repeated SYN-ACK)
+fn reack_copy(tr: &EwTrace, wi: usize) -> bool {
+    let d = &tr.wire[wi];
+    if !matches!(d.frame, Some(Frame::DisconnectFrame(_))) || wi == 0 { return false; }
+    let p = &tr.wire[wi - 1];
+    if !(!p.injected && p.src == d.src && p.dst == d.dst && p.sent_round == d.sent_round && matches!(p.frame, Some(Frame::HandshakeAckFrame(_)))) { return false; }
+    // only a client that is already closing repeats its request there: an earlier transmission of the request by the same Client object
+    let since = client_index(&d.src).and_then(|k| tr.calls.iter().filter(|c| matches!(c.act, Act::Connect(j) if j == k) && c.round <= d.sent_round).map(|c| c.round).max()).unwrap_or(0);
+    tr.wire[..wi - 1].iter().any(|e| !e.injected && e.src == d.src && e.dst == d.dst && e.sent_round >= since && matches!(e.frame, Some(Frame::DisconnectFrame(_))))
+}
+
 pub fn oracle_c10(cfg: &EwCfg, tr: &EwTrace) -> Vec<Violation> {
     let mut out = Vec::new();
     let n = cfg.clients.len();
@@ -462,8 +473,11 @@ pub fn oracle_c10(cfg: &EwCfg, tr: &EwTrace) -> Vec<Violation> {
     {
         let mut last: std::collections::HashMap<(std::net::SocketAddr, std::net::SocketAddr, Vec<u8>), (u64, usize)> = Default::default();
         let connect_rounds: Vec<(usize, usize)> = tr.calls.iter().filter_map(|c| if let Act::Connect(k) = c.act { Some((k, c.round)) } else { None }).collect();
-        for d in tr.wire.iter().filter(|d| !d.injected) {
+        for (wi, d) in tr.wire.iter().enumerate().filter(|(_, d)| !d.injected) {
             if !matches!(d.frame, Some(Frame::HandshakeSynFrame(_)) | Some(Frame::HandshakeSynAckFrame(_)) | Some(Frame::DisconnectFrame(_))) { continue; }
+            // a disconnect request repeated right behind the re-acknowledgement of a SYN-ACK answers that SYN-ACK (the server has only now
+            // learnt of the connection); it is not a retry of the timer
+            if reack_copy(tr, wi) { continue; }
             let t_sent = tr.obs.get(d.sent_round).map_or(d.t_ms, |o| o.t_ms);
             let key = (d.src, d.dst, d.bytes.clone());
             if let Some((prev, prev_round)) = last.get(&key).copied() {
@@ -497,7 +511,7 @@ pub fn oracle_c10(cfg: &EwCfg, tr: &EwTrace) -> Vec<Violation> {
                 let evs: Vec<&EvRec> = tr.cev[i].iter().filter(|e| e.gen == g && e.round == r).collect();
                 let timeout_now = evs.iter().any(|e| e.ev == Ev::Error(0));
                 let sent_syn = tr.wire.iter().filter(|d| !d.injected && d.src == caddr(i) && d.by_step && d.sent_round == r && matches!(d.frame, Some(Frame::HandshakeSynFrame(_)))).count();
-                let sent_disc = tr.wire.iter().filter(|d| !d.injected && d.src == caddr(i) && d.by_step && d.sent_round == r && matches!(d.frame, Some(Frame::DisconnectFrame(_)))).count();
+                let sent_disc = tr.wire.iter().enumerate().filter(|(wi, d)| !d.injected && d.src == caddr(i) && d.by_step && d.sent_round == r && matches!(d.frame, Some(Frame::DisconnectFrame(_))) && !reack_copy(tr, *wi)).count();
                 let heard = tr.delivered.iter().any(|x| x.round == r && { let d = &tr.wire[x.dg]; d.dst == caddr(i) && d.src == saddr() && is_conn_frame(&d.frame) });
                 for c in tr.calls.iter().filter(|c| c.round == r && c.gen == g) { if matches!(c.act, Act::CDisconnect(k) | Act::CDisconnectNow(k) if k == i) { disc_called = true; } }
                 if let Some(h) = hs.as_mut() {
